@@ -65,6 +65,13 @@ class InjectedIOError(OSError):
     pass
 
 
+class InjectedCrash(Exception):
+    """Simulated crash of the whole computation, raised inside the k-th data set (before or after it takes effect)."""
+
+
+CRASH = {"at": None, "n": 0, "when": "before"}
+
+
 _faults = None
 
 
@@ -144,6 +151,11 @@ def install():
                 if os.environ.get("CUBED_VERIF_WLAT_RANDOM") == "1":
                     d = lat * (int(hashlib.sha1(full.encode()).hexdigest()[:4], 16) / 65535.0)
                 await asyncio.sleep(d)
+        if not meta and CRASH["at"] is not None:
+            CRASH["n"] += 1
+            if CRASH["n"] == CRASH["at"] and CRASH["when"] == "before":
+                CRASH["at"] = None
+                raise InjectedCrash(f"crash before data set #{CRASH['n']} ({full})")
         try:
             raw = value.to_bytes()
             h = hashlib.sha1(raw).hexdigest()[:12]
@@ -151,6 +163,9 @@ def install():
         except Exception:
             h, n = "?", -1
         r = await oset(self, key, value)
+        if not meta and CRASH["at"] is not None and CRASH["n"] == CRASH["at"] and CRASH["when"] == "after":
+            CRASH["at"] = None
+            raise InjectedCrash(f"crash after data set #{CRASH['n']} ({full})")
         emit({"k": "set", "root": str(self.root), "key": key, "t0": t0, "t1": time.monotonic_ns(), "n": n, "h": h, "meta": meta})
         return r
 
